@@ -110,6 +110,15 @@ CHECKS = {
              "every observation (plus random attempt streams up to 2^31-1 and the real retrying client against a loopback server).",
         note="Trusted: TLC, math/big projection of waits to order relations, 2 s tolerance on HTTP dates; attempts=0 (retry until success) is outside the statement.",
         technique="TLA+ specs + TLC exhaustive; exhaustive scenario replay; TLC trace validation of recorded Apply results"),
+    "C15": dict(
+        category="model_checking", design_ref="DESIGN.md 5/C15",
+        text="ConfigPrecedence.tla states the precedence rule (explicit flag > environment > file > default structure > flag default), the environment-name rule (PREFIX_PATH_TO_FIELD in upper "
+             "case) and the validation gate over the leaf fields of a three-level structure; TLC checks the rule's own invariants and enumerates 15k scenarios (subject fields x present sources x "
+             "invalidated required field x prefix spelling) with the expected winner and names. Each scenario is materialised with a real viper session, pflag set, process environment, YAML/JSON "
+             "file and default structure; LoadFromEnvironment runs; the loaded values are projected to the source they came from and judged by TLC (ConfigTrace.tla) together with the names reported "
+             "by DetermineConfigurationEnvironmentVariables, each set alone and observed.",
+        note="Trusted: TLC, viper/pflag as used by the library, the harness's statically compiled structure.",
+        technique="TLA+ precedence / naming / validation rule + TLC scenario enumeration; replay on real viper sessions; TLC trace judgement"),
     "C16": dict(
         category="model_checking", design_ref="DESIGN.md 5/C16",
         text="SharedCache.tla models the remote entry (package chunks tagged with versions, hash side file, lock) and Store / Fetch at the grain of the calls that mutate or read it, "
